@@ -100,6 +100,16 @@ func IntFrom(name string, list []int) int {
 	return list[i]
 }
 
+// ByteFrom is a byte drawn from a small set (symbolic selector; see FloatFrom).
+func ByteFrom(name string, set string) byte {
+	i := int(raw(name))
+	if i < 0 || i >= len(set) {
+		AssumeBad = true
+		return set[0]
+	}
+	return set[i]
+}
+
 // Bytes is a string of n symbolic bytes named name_0 .. name_{n-1}.
 func Bytes(name string, n int) string {
 	b := make([]byte, n)
